@@ -194,8 +194,11 @@ Pickled(e) ==
                         THEN Append(s.integ, <<e.integ_last[1], e.integ_last[2]>>) ELSE s.integ,
               !.ins = IF e.n_ins = Len(s.ins) + 1 THEN Append(s.ins, e.ins_last) ELSE s.ins]
 
+\* the last three snapshots are kept: a resume may fall back to an older file (<file>.old)
+KeepLast(q, k) == IF Len(q) <= k THEN q ELSE SubSeq(q, Len(q) - k + 1, Len(q))
+
 EvCkpt(e) ==
-    /\ disk' = <<Pickled(e)>>
+    /\ disk' = KeepLast(Append(disk, Pickled(e)), 3)
     /\ rank' = RankWith(e) /\ ok' = OkWith(e, TRUE)
     /\ M("ckpt: pickled state is not the last iteration boundary (mid-iteration checkpoint)",
          e.it = s.it /\ e.n_dead = Len(s.dead) /\ e.n_integ = Len(s.integ) /\ e.n_ins = Len(s.ins)
@@ -210,13 +213,17 @@ EvCkpt(e) ==
 EvResume(e) ==
     /\ P("C12", "resumed_from_a_checkpoint", disk # Null)
     /\ IF disk # Null
-       THEN /\ s' = disk[1]
-            /\ P("C12", "restored_iteration", e.it = disk[1].it)
-            /\ P("C12", "restored_live", (e.live_none /\ disk[1].live = <<>>) \/ e.live = disk[1].live)
-            /\ P("C12", "restored_counts", e.n_dead = Len(disk[1].dead) /\ e.n_integ = Len(disk[1].integ)
-                                             /\ e.n_ins = Len(disk[1].ins) /\ e.fin = disk[1].fin)
-            /\ P("C12", "restored_evaluations", e.evals = disk[1].evals)
-            /\ P("C12", "restored_digest:" \o e.digest_diff, e.digest_ok)
+       THEN LET cands == {k \in DOMAIN disk : disk[k].it = e.it /\ Len(disk[k].dead) = e.n_dead}
+                k == IF cands = {} THEN Len(disk) ELSE CHOOSE x \in cands : \A y \in cands : y <= x
+                d == disk[k]
+            IN  /\ s' = d
+                /\ P("C12", "restored_the_latest_checkpoint", k = Len(disk))
+                /\ P("C12", "restored_iteration", e.it = d.it)
+                /\ P("C12", "restored_live", (e.live_none /\ d.live = <<>>) \/ e.live = d.live)
+                /\ P("C12", "restored_counts", e.n_dead = Len(d.dead) /\ e.n_integ = Len(d.integ)
+                                                 /\ e.n_ins = Len(d.ins) /\ e.fin = d.fin)
+                /\ P("C12", "restored_evaluations", e.evals = d.evals)
+                /\ P("C12", "restored_digest:" \o e.digest_diff, e.digest_ok \/ k # Len(disk))
        ELSE s' = s
     /\ rank' = RankWith(e) /\ ok' = OkWith(e, TRUE)
     /\ aux' = [aux EXCEPT !.last = "resume", !.itsum = e.it_sum, !.obs.it = -1] /\ UNCHANGED disk
